@@ -297,8 +297,20 @@ def check_batch(prop, modname, tag, cases, jobs):
         raise RuntimeError(f'harness error on case {i}: {o["__harness_error__"]}\n{o.get("tb")}\n'
                            f'case={json.dumps(cases[i])[:2000]}')
     failures = []
+    beyond_fuel = []
     for i, (c, o) in enumerate(zip(cases, obs)):
         if isinstance(o, dict) and o.get('__timeout__'):
+            # a time-out counts only when the model says the run is a short one: a case whose loops
+            # outgrow the model's own fuel (e.g. a loop bound that the body keeps raising) is outside
+            # the model, and merely slow
+            if hasattr(prop, 'coq_model_obs'):
+                try:
+                    shown = eval_terms_show(prop, f'{tag}_to{i}', [('m', prop.coq_model_obs(c))]).get('m', '')
+                except Exception:  # noqa
+                    shown = ''
+                if shown.lstrip('( \n').startswith('OUnsup'):
+                    beyond_fuel.append(i)
+                    continue
             failures.append((i, fail('implementation-timeout',
                                      'the implementation did not finish this (terminating by construction) case '
                                      'within the per-case time limit')))
@@ -309,7 +321,7 @@ def check_batch(prop, modname, tag, cases, jobs):
              if not (isinstance(o, dict) and o.get('__timeout__'))]
     codes = eval_in_coq(prop, tag, terms, jobs)
     mism = sorted(i for i, c in codes.items() if c == 1)
-    unsup = sorted(i for i, c in codes.items() if c == 2)
+    unsup = sorted([i for i, c in codes.items() if c == 2] + beyond_fuel)
     other = sorted(i for i, c in codes.items() if c not in (1, 2))
     return obs, failures, mism + other, unsup
 
